@@ -9,7 +9,7 @@ import vlib
 LEVEL = "proof"
 PROPS = "Writers/Props_C13.v"
 COQ_FILES = ["Writers/GoBytes.v", "Writers/GoBytesProofs.v", "Writers/PomProps.v", "Writers/PomPropsProofs.v",
-             "Writers/PkgJson.v", "Writers/PkgJsonProofs.v", "Writers/PomDecl.v", "Writers/PomDeclProofs.v", "Writers/PomDeclPropProofs.v",
+             "Writers/PkgJson.v", "Writers/PkgJsonProofs.v", "Writers/PomDecl.v", "Writers/PomDeclProofs.v", "Writers/PomDeclPropProofs.v", "Writers/PomDeclFullProofs.v",
              "Writers/PomWriter.v", "Writers/PomWriterProofs.v",
              "Writers/Proofs.v", "Writers/Props_C13.v"]
 COQ_FILES = [f for f in COQ_FILES if os.path.exists(os.path.join(vlib.COQ, "theories", f))]
@@ -35,14 +35,15 @@ MODES = {
     },
     "pom": {
         "type": "mcase", "model_ok": "mcase_model_ok", "spec_ok": "mcase_spec_ok", "spec_full": "mcase_spec_full",
-        "domains": ["mcase_in_domain", "(fun c => d_lit (mc_chain c) (mc_updates c))",
+        "domains": ["mcase_in_domain", "(fun c => d_multi (mc_chain c) (mc_updates c))", "(fun c => d_lit (mc_chain c) (mc_updates c))",
                     "(fun c => match mc_updates c with [u] => d_prop (mc_chain c) u | _ => false end)",
                     "(fun c => existsb (d_add (mc_chain c)) (mc_updates c))",
                     "(fun c => mc_chain_ok c && chain_frag (mc_chain c) (mc_updates c))", "mc_claimed"],
-        "domain_names": ["d_full_and_token_domain", "d_lit", "d_prop", "has_d_add_update", "model_compared", "harness_structural_domain"],
+        "domain_names": ["d_full_and_token_domain", "d_multi", "d_lit", "d_prop", "has_d_add_update", "model_compared", "harness_structural_domain"],
         "corr": "maven readWriter.Write (Go): written version declarations and property definitions of every pom of the chain vs "
                 "Writers.PomDecl.write_chain (Coq, vm_compute); Write panics vs Writers.PomWriter.write_panics",
-        "theorems": ["pom_decl_write_exact_on_D", "pom_decl_property_update_exact_on_D", "pom_decl_added_management_present",
+        "theorems": ["pom_decl_write_exact_on_D_full", "pom_decl_write_exact_on_D", "pom_decl_property_update_exact_on_D",
+                     "pom_decl_added_management_present",
                      "pom_added_entry_lost_refuted", "pom_decl_no_updates_identity", "pom_write_never_panics",
                      "pom_origin_ignored_refuted", "pom_shared_property_refuted", "pom_property_in_parent_refuted"],
         "quick": 500, "thorough": 6000, "per": 25,
@@ -361,8 +362,8 @@ def run(ctx):
                     "spec (decl_spec_ok) is evaluated on the implementation's own output; pom_decl_write_exact_on_D is proved on d_lit "
                     "(literal versions, any number of updates), pom_decl_property_update_exact_on_D on d_prop (one update of a "
                     "${property} version), pom_decl_added_management_present on d_add (an added managed dependency becomes a "
-                    "project-level management declaration of the main pom, wherever the chain has dependencyManagement sections); the oracle claims d_full (several property updates at once / mixed: tied by vm_compute, not "
-                    "proved). ORACLE-ONLY, not modelled: "
+                    "project-level management declaration of the main pom, wherever the chain has dependencyManagement sections); pom_decl_write_exact_on_D_full on d_multi (SEVERAL updates at once, literal / ${property} / added mixed); the oracle "
+                    "claims d_full = d_multi plus versions that repeat a placeholder name (that rest tied by vm_compute, not proved). ORACLE-ONLY, not modelled: "
                     "the token level -- that element order, attributes, namespaces, whitespace/text, comments (incl. inside <version>), "
                     "processing instructions and CDATA survive the forked encoder as the same token sequence, and the inserted "
                     "dependencyManagement block (encoding/xml token comparison of every written file, strict on the zero-update "
